@@ -92,6 +92,7 @@ class Rec:
         self.gen_frames = []    # for gcm: generator frame(s), outermost first (with its delegate)
         self.opens = []         # Recs of managers opened inside the generator
         self.regs = []          # for stacks: list of (kind, payload Rec or object)
+        self.unentered = False  # a generator-based manager that was registered without ever being entered
 
 
 class Builder:
@@ -201,6 +202,13 @@ class Builder:
                     self.late_registrations += 1
                     st.callback(cb_fn, "late")
                 sub.obj.on_repr = late
+        elif kind == "push_cm_unentered":
+            # push(manager) of a generator-based manager that nobody has entered: only its exit is registered; its
+            # generator exists but has not started
+            sub = self.make(reg[1])
+            sub.unentered = True
+            st.push(sub.obj)
+            r.regs.append(("push_cm", sub))
         elif kind == "push_fn":
             st.push(exit_fn)
             r.regs.append((kind, exit_fn))
@@ -217,8 +225,14 @@ class Builder:
     async def _aregister(self, r, reg):
         st = r.obj
         kind = reg[0]
-        if kind in ("enter_context", "push_cm", "push_fn", "push_method", "callback"):
+        if kind in ("enter_context", "push_cm", "push_fn", "push_method", "callback", "push_cm_unentered"):
             return self._register(r, reg)
+        if kind == "push_async_exit_cm_unentered":
+            sub = self.make(reg[1])
+            sub.unentered = True
+            st.push_async_exit(sub.obj)
+            r.regs.append(("push_async_exit_cm", sub))
+            return
         if kind in ("enter_async_context", "push_async_exit_cm"):
             sub = self.make(reg[1])
             if kind == "enter_async_context":
@@ -286,6 +300,14 @@ def check_ctx(ctx, rec, path, bad, stats, exiting=False):
         if ist.error is not None:
             bad.append({"kind": "inner_stack_error", "path": path, "exc": repr(ist.error)})
         got = [f.pyframe for f in ist.frames]
+        if rec.unentered:
+            stats["unentered_gcm"] = stats.get("unentered_gcm", 0) + 1
+            gen = rec.obj.gen
+            own = getattr(gen, "gi_frame", None) or getattr(gen, "ag_frame", None)
+            if got != [own] or ist.root is not gen or ist.frames[0].contexts:
+                bad.append({"kind": "inner_stack_of_unentered_manager", "path": path,
+                            "got": [f.f_code.co_name for f in got]})
+            return
         if got != rec.gen_frames:
             bad.append({"kind": "inner_stack_frames", "path": path, "got": [f.f_code.co_name for f in got],
                         "exp": [f.f_code.co_name for f in rec.gen_frames]})
